@@ -96,11 +96,19 @@ theorem numeric_text_rewritten_witness :
     ((handleGet c [b "get", b "k"]).run c ((handleSet c [b "set", b "k", b "007"]).run c { dbs := [], mem := 0 }).1).2
       = .done (.ok (b "+7\r\n")) := by decide
 
-/-- RENAME k k deletes the key -/
-theorem rename_self_deletes_witness :
+/-- **RENAME of a key onto itself keeps it** (repaired in /repo by a `fix:` commit; before it the key was
+    set and then deleted): for every state and every live key the state is unchanged and the reply is OK -/
+theorem rename_self_keeps (c : Ctx) (s : State) (k : Bytes) (e : Entry)
+    (h : s.lookup c.db k = some e) (hlive : e.expired c.now = false) (hv : e.val ≠ .nil) :
+    (handleRename c [b "rename", k, k]).run c s = (s, .done (.ok okReply)) := by
+  have hg := getValues_live c s k e h hlive
+  simp only [handleRename, run_call, Prim.exec, hg]
+  cases hval : e.val <;> simp_all [Prog.run]
+
+example :
     let c : Ctx := { db := 0, now := 1000 }
     let s : State := { dbs := [(0, ⟨[(b "k", ⟨.str (b "v"), none⟩)], []⟩)], mem := 57 }
-    ((handleRename c [b "rename", b "k", b "k"]).run c s).1.lookup 0 (b "k") = none := by decide
+    ((handleRename c [b "rename", b "k", b "k"]).run c s).1.lookup 0 (b "k") = some ⟨.str (b "v"), none⟩ := by decide
 
 /-- GETRANGE with start beyond the string panics -/
 theorem getrange_panics_witness :
